@@ -41,7 +41,7 @@ def expected_attrs(text):
             j = i + 1
             while j < len(toks) and toks[j][1] == ")":
                 j += 1
-            if j < len(toks) and toks[j][0] == "op" and toks[j][1] in ASSIGN_OPS:
+            if j < len(toks) and toks[j][0] == "op" and toks[j][1] in tuple(ASSIGN_OPS) + ("++", "--"):
                 out.add("WPRED")
                 if o.kind == "expl" and ":" not in s:
                     out.add("WRITE_P" + re.match(r"P(\d)", s).group(1))
@@ -71,6 +71,9 @@ TEMPLATES = [
     "{ P2 = (RsV == RtV) ? 0xff : 0; if (P2_NEW & 1) { JUMP(HEX_REG_ALIAS_PC + riV); } }",
     "{ RdV = (RsV ? RtV : RuV); }", "{ for (i = 0; i < 4; i++) { RxV += i; } }", "{ RdV = NsN; }",
     "{ EA = RsV; mem_store_u16(EA, (uint16_t)mem_load_u16(EA) + RtV); }", "{ P3 = P3 | 1; }", "{ RddV = RssV; }",
+    # every way a predicate can be written: simple, compound, postfix
+    "{ P0++; }", "{ P2--; RdV = 1; }", "{ PdV++; }", "{ PxV--; }", "{ P1 += 1; }", "{ PdV &= RsV; }", "{ RdV = P3++; }",
+    "{ if (RsV) { P0++; } }", "{ P1 <<= 1; }",
 ]
 
 
